@@ -317,6 +317,10 @@ type DynOptions struct {
 	HLit, HDist   int  // number of litlen (257..286) / dist (1..30) codes to declare; 0 = minimal
 	FullHCLEN     bool // declare all 19 code-length codes instead of trimming trailing zeros
 	WorstCL       bool // the most wasteful complete code-length code: 7 bits for every length value used
+	// ZeroSplit: with UseRepeat, a run of zero lengths is not written greedily with 17/18 alone:
+	// part of it is written as "repeat the previous length" (16) directly after a 17/18 item or
+	// after an explicit 0 - legal, since the previous length IS zero, but no common encoder does it
+	ZeroSplit bool
 }
 
 // CLSym is a code-length symbol (0..18) with the value of its extra bits.
@@ -357,6 +361,16 @@ func DynamicHeaderRaw(w *BitWriter, final bool, hlit, hdist, hclen int, clLens [
 // RLE encodes code lengths as code-length symbols. With useRepeat it greedily
 // uses 16/17/18; runs never cross the positions listed in breaks.
 func RLE(lens []uint8, useRepeat bool, breaks ...int) []CLSym {
+	return rle(lens, useRepeat, false, breaks...)
+}
+
+// RLEZeroSplit is RLE with zero runs of seven or more split into a 17/18 item for the first
+// part (or an explicit 0) and 16 items ("repeat the previous length", which is 0) for the rest.
+func RLEZeroSplit(lens []uint8, breaks ...int) []CLSym {
+	return rle(lens, true, true, breaks...)
+}
+
+func rle(lens []uint8, useRepeat, zeroSplit bool, breaks ...int) []CLSym {
 	var seq []CLSym
 	isBreak := func(i int) bool {
 		for _, b := range breaks {
@@ -381,6 +395,29 @@ func RLE(lens []uint8, useRepeat bool, breaks ...int) []CLSym {
 			seq = append(seq, CLSym{Sym: int(v)})
 			i++
 			run--
+		}
+		if v == 0 && zeroSplit && run >= 7 {
+			// first part: 17 (3..10 zeros), 18 (11..) or one explicit zero, by the shape of the run
+			first := 3 + run%3
+			switch {
+			case run%2 == 0 && run >= 17:
+				first = 11 + run%5
+				seq = append(seq, CLSym{18, uint32(first - 11)})
+			case run%3 == 0:
+				first = 1
+				seq = append(seq, CLSym{Sym: 0})
+			default:
+				seq = append(seq, CLSym{17, uint32(first - 3)})
+			}
+			i += first
+			run -= first
+			for run >= 3 { // the rest as repeats of the previous (zero) length
+				n := min(run, 6)
+				seq = append(seq, CLSym{16, uint32(n - 3)})
+				i += n
+				run -= n
+			}
+			continue
 		}
 		for run >= 3 { // a shorter rest is emitted as plain lengths
 			n := min(run, 6)
@@ -533,9 +570,14 @@ func DynamicHeader(w *BitWriter, final bool, litLens, distLens []uint8, opt DynO
 	}
 	all := append(pad(litLens, nlit)[:nlit:nlit], pad(distLens, ndist)[:ndist]...)
 	var seq []CLSym
-	if opt.UseRepeat && !opt.CrossBoundary {
+	switch {
+	case opt.UseRepeat && opt.ZeroSplit && !opt.CrossBoundary:
+		seq = RLEZeroSplit(all, nlit)
+	case opt.UseRepeat && opt.ZeroSplit:
+		seq = RLEZeroSplit(all)
+	case opt.UseRepeat && !opt.CrossBoundary:
 		seq = RLE(all, true, nlit)
-	} else {
+	default:
 		seq = RLE(all, opt.UseRepeat)
 	}
 	HeaderSeqCL(w, final, nlit, ndist, seq, opt.FullHCLEN, opt.WorstCL)
